@@ -55,7 +55,7 @@ FnNM(name, n, m) ==
        <<PrintS(<<StrL(name)>> \o [i \in 1..n |-> Var(PName(i))])>>
        \o (IF m = 0 THEN <<>> ELSE <<RetS([j \in 1..m |-> ResExpr(TyAt(j + 1), n, j)])>>))
 CallNM(name, n) == CallE(name, [i \in 1..n |-> ArgOf(TyAt(i), i)])
-Shapes(m) == IF m = 0 THEN {"stmt"} ELSE IF m = 1 THEN {"stmt", "define", "assign", "print", "arg", "operand"} ELSE {"stmt", "define", "assign", "partial"}
+Shapes(m) == IF m = 0 THEN {"stmt"} ELSE IF m = 1 THEN {"stmt", "define", "assign", "print", "arg", "operand", "stmtarg", "stmtargs", "discardarg"} ELSE {"stmt", "define", "assign", "partial"}
 ZeroArg(ty) == CASE ty = "int" -> NatLit(0) [] ty = "string" -> StrL("") [] ty = "bool" -> BoolL(FALSE)
 ArityProg(n, m, sh) ==
   <<FnNM("fn", n, m),
@@ -68,6 +68,11 @@ ArityProg(n, m, sh) ==
        [] sh = "print" -> <<PrintS(<<CallNM("fn", n), StrL("|"), CallNM("fn", n)>>)>>
        [] sh = "arg" -> <<Def1("q", CallE("show", <<CallNM("fn", n)>>)), PrintS(<<Var("q")>>)>>
        [] sh = "operand" -> <<Def1("q", CmpE("==", CallNM("fn", n), CallNM("fn", n))), PrintS(<<Var("q")>>)>>
+       \* a call whose own value is not used (statement position) still receives the values of the calls in its argument list
+       [] sh = "stmtarg" -> <<Func("sink", <<Param("v", TyAt(2))>>, <<>>, <<PrintS(<<StrL("sink"), Var("v")>>)>>), ExprS(CallE("sink", <<CallNM("fn", n)>>)), L("after")>>
+       [] sh = "stmtargs" -> <<Func("sink2", <<Param("t", "string"), Param("v", TyAt(2)), Param("w", TyAt(2))>>, <<>>, <<PrintS(<<StrL("sink2"), Var("t"), Var("v"), Var("w")>>)>>),
+                               ExprS(CallE("sink2", <<StrL("tag"), CallNM("fn", n), Grp(CallNM("fn", n))>>)), L("after")>>
+       [] sh = "discardarg" -> <<ExprS(CallE("show", <<CallNM("fn", n)>>)), Func("w", <<>>, <<>>, <<ExprS(CallE("show", <<CallE("show", <<CallNM("fn", n)>>)>>))>>), ExprS(CallE("w", <<>>))>>
 ArityCases == UNION {{CaseOf("C02/arity/" \o ToString(nm[1]) \o "-" \o ToString(nm[2]) \o "/" \o sh, ArityProg(nm[1], nm[2], sh)) : sh \in Shapes(nm[2])}
                      : nm \in (0..3) \X (0..3)}
 
